@@ -82,7 +82,7 @@ static void put_generated (vf_rng *r, pixman_format_code_t f, uint8_t *row, int 
     vf_put_px (row, bpp, x, raw);
 }
 
-typedef struct { vf_buf buf; pixman_image_t *img; pixman_format_code_t fmt; int solid; uint8_t solid8[4]; int w;
+typedef struct { vf_buf buf; pixman_image_t *img; pixman_format_code_t fmt; int solid; uint8_t solid8[4]; int has16; uint16_t solid16[4]; int w;
                  int xo, yo;        /* offset of the request inside the image (shared-storage operands only; 0 otherwise) */
                  int borrowed;      /* the storage belongs to another operand */
                  int xdiv;          /* 2: the image is read through a 2x enlarging NEAREST transform (request pixel x samples image pixel x/2); else 0 */
@@ -91,11 +91,22 @@ typedef struct { vf_buf buf; pixman_image_t *img; pixman_format_code_t fmt; int 
 static void operand_free (operand_t *o) { if (o->img) pixman_image_unref (o->img); if (!o->solid && !o->borrowed) vf_buf_free (&o->buf); free (o->pal); memset (o, 0, sizeof *o); }
 
 static int force_runs;
+static int solid16_ok;   /* the destination is a wide format: the request certainly runs in the float pipeline, where a solid fill enters as c/65535 */
 /* kind: 0 bits image of width n, 1 solid fill, 2 1x1 repeating bits */
 static int operand_make (operand_t *o, vf_rng *r, pixman_format_code_t f, int n, int kind, int premult)
 {
     memset (o, 0, sizeof *o); o->fmt = f; o->w = n;
     if (kind == 1) {
+        if (solid16_ok && vf_chance (r, 1, 2)) {
+            /* all 16 bits of the colour count: alpha just below 1 (0xff00..0xfffe reads as 0xff in 8 bits), just above 0, and anything */
+            static const uint16_t ea[] = { 0xffff, 0xfffe, 0xff80, 0xff00, 0xfeff, 0x8000, 0x0100, 0x00ff, 0x0001, 0 };
+            uint16_t a = vf_chance (r, 2, 3) ? VF_PICK (r, ea) : (uint16_t)vf_next (r);
+            o->solid16[0] = a; for (int c = 1; c < 4; c++) { uint16_t v = vf_chance (r, 1, 4) ? 0xffff : (uint16_t)vf_next (r); o->solid16[c] = premult ? (uint16_t)((uint32_t)v * a / 65535) : v; }
+            for (int c = 0; c < 4; c++) o->solid8[c] = (uint8_t)(o->solid16[c] >> 8);
+            pixman_color_t c16 = { o->solid16[1], o->solid16[2], o->solid16[3], o->solid16[0] };
+            o->img = pixman_image_create_solid_fill (&c16); o->solid = 1; o->has16 = 1; o->fmt = PIXMAN_a8r8g8b8; vf_count ("solids_with_16_bit_colours", 1);
+            return o->img != NULL;
+        }
         gen8 (r, premult, o->solid8);
         pixman_color_t c = { (uint16_t)(o->solid8[1] * 0x101), (uint16_t)(o->solid8[2] * 0x101), (uint16_t)(o->solid8[3] * 0x101), (uint16_t)(o->solid8[0] * 0x101) };
         o->img = pixman_image_create_solid_fill (&c); o->solid = 1; o->fmt = PIXMAN_a8r8g8b8;
@@ -136,6 +147,7 @@ static void operand_px8 (const operand_t *o, int x, uint8_t p[4])
 }
 static void operand_pxf (const operand_t *o, int x, double p[4])
 {
+    if (o->solid && o->has16) { for (int c = 0; c < 4; c++) p[c] = o->solid16[c] / 65535.0; return; }
     if (o->solid) { for (int c = 0; c < 4; c++) p[c] = o->solid8[c] / 255.0; return; }
     if (o->w == 1) x = 0;
     if (o->pal) { uint8_t p8[4]; operand_px8 (o, x, p8); for (int c = 0; c < 4; c++) p[c] = p8[c] / 255.0; return; }
@@ -180,6 +192,7 @@ static void c01_case (long idx, vf_rng *r)
     int premult = !exact || vf_chance (r, 1, 2);
     if (ro_is_hsl (op) && mode == RO_CA) { vf_count ("skipped_hsl_ca", 1); return; }      /* not claimed: equations undefined */
     operand_t S, M, D; memset (&M, 0, sizeof M);
+    solid16_ok = rp_is_wide (df);
     if (shared_pair) {
         /* source and mask are two views (x888 / a888) of ONE pixel buffer, as GdkPixbuf users do; the offsets of the two views differ in
          * general (only equal offsets make it the "pixbuf" case the library has special routines for) */
